@@ -664,6 +664,7 @@ func (r *recorder) first() (types.Status, int, []string) {
 func props() []rp.Prop {
 	return []rp.Prop{
 		rp.P[dCase]{Name: "civil", Checks: ev.Pick(400000, 16000000) / ev.Shards(), Gen: genCase, Sweep: sweep, Check: checkCase},
+		rp.P[inflightCase]{Name: "zone-changes-while-an-event-waits", Checks: ev.Pick(40, 4000) / ev.Shards(), Gen: genInflight, Check: checkInflight},
 		rp.P[concCase]{Name: "concurrent-dates", Checks: ev.Pick(120, 12000) / ev.Shards(), Gen: genConc, Sweep: sweepConc, Check: checkConc},
 	}
 }
